@@ -14,11 +14,13 @@ Safety model (bank-grade, fail closed):
 
 import json
 import logging
+import posixpath
 import time
 from typing import Dict, Set
 
 from .file_manager import FileManager
 from .metadata_manager import MetadataManager
+from .storage_backend import LocalStorageBackend
 
 logger = logging.getLogger(__name__)
 
@@ -336,5 +338,12 @@ class GarbageCollector:
             and root.startswith("/")
             and path.startswith(root + "/")
         ):
-            return path[len(root):].lstrip("/")
+            relative = path[len(root):].lstrip("/")
+        if isinstance(self.storage, LocalStorageBackend):
+            # A file system resolves 'data//x', 'data/./x', './data/x' and
+            # 'data/sub/../x' to the file the listing reports as 'data/x', and
+            # append_files() accepts all of them. Compared as raw strings the
+            # referenced file looked unreachable and was deleted. (S3 keys are
+            # literal: there these are different objects.)
+            relative = posixpath.normpath(relative)
         return relative
